@@ -10,6 +10,7 @@ import (
 	"strconv"
 	"strings"
 	"text/scanner"
+	"unicode"
 
 	"github.com/basecomplextech/spec/internal/lang/syntax"
 )
@@ -114,6 +115,13 @@ func (l *lexer) Lex(lval *yySymType) int {
 			continue
 
 		default:
+			// Only ASCII punctuation is a part of the language. Any other rune is a lexical error,
+			// it must not reach the parser as its code point: the code points of the private use
+			// area collide with the token numbers of the parser (U+E002 would be read as `any`).
+			if token < 0 || token > unicode.MaxASCII {
+				return yyLexErrorf(l, "unexpected character %q", text)
+			}
+
 			lval.yys = int(token)
 			lval.string = text
 
